@@ -239,7 +239,7 @@ def body_headsame(case, note):
     repl = r["html"][len(pre) : len(r["html"]) - len(post)]
     hd = h.HTMLDocument(*[build_dep(x) for x in recipes]).render(lib_prefix=case["lib"], include_version=case["iv"])["html"]
     a = hd.index("<head>") + len("<head>")
-    b = hd.index("</head>")
+    b = hd.rindex("</head>")  # a dependency *name* may itself contain "</head>": the real end tag is the last one (the body is empty)
     head_inner = hd[a:b]
 
     def stream(s):
